@@ -67,6 +67,12 @@ TARGETED = [
     "module m {\n let t1 = (from x)\n let t2 = (from y)\n}\nfrom m.t1 | join m.t2 (==id)",
     "module m {\n module n {\n  let t1 = (from x)\n }\n let t2 = (from n.t1)\n}\nfrom m.t2 | join m.n.t1 (==id)",
     "from t | select {a, b, c} | derive {d = this}",
+    # an input sub-module and a directly declared column share a Decl::order (was F10k, fixed by 987d30b)
+    "from t | join u (==id) | select {d = 1, t.a, u.b} | select {this.*}",
+    "from t | join u (==id) | select {zz = 1, t.a, u.b} | select {this.*}",
+    "from t | join u (==id) | join v (==id) | select {d = 1, e = 2, t.a, u.b, v.c} | select {this.*}",
+    "from t | join u (==id) | select {d = 1, t.a, u.b} | select {x = this.*}",
+    "from t | join u (==id) | select {d = 1, t.a, u.b} | select {this.*} | sort {d} | take 3",
     "let tab = (from t | select {a, b, c, d, e, f})\nfrom tab | select {tab.*}",
     "from t | aggregate {a = sum x, b = sum y, c = sum z} | derive {d = a + b + c}",
     "from t | loop (filter a < 5 | select {a = a + 1, b = b + 1, c = c + 1})",
@@ -564,7 +570,8 @@ def run():
             if first != ref_sig or first != last:
                 ck.violation("compile() keeps state from an earlier PRQL_VERSION_OVERRIDE", {"history": steps, "outs": outs, "fresh": ref_sig})
 
-    # the debug API used concurrently with a compilation (F10j)
+    # the debug API used concurrently with a compilation (was F10j, fixed by 2f50a3c: nothing is classified any more,
+    # a poisoned lock or a panic during the race is a VIOLATION)
     race = {"src": "from t | take 3", "format": False, "sig": False, "only_sql": True, "compiles": 60, "restarts": 20000}
     for k, ans in enumerate(run_procs("c11_lograce", [[race] for _ in range(ck.n(2, 6))], timeout=300)):
         a = ans[0]
@@ -573,11 +580,8 @@ def run():
             ck.violation("concurrent log restart hangs or aborts the process", {"req": race, "got": a}); continue
         ck.stat("api-concurrent", "poisoned" if a["after"] != a["before"] else "survived")
         if a["after"] != a["before"] or a.get("panics_during"):
-            ck.disagreement("restarting the debug log while another thread compiles breaks compile() for the rest of the process",
-                            {"req": race, "got": a, "kind": "log-race"},
-                            lambda c: "F10j-concurrent-log-restart-underflow"
-                            if "PoisonError" in json.dumps(c["got"]["after"]) + json.dumps(c["got"]["panics_during"])
-                            and any("subtract with overflow" in m or "PoisonError" in m for m in c["got"]["panics_during"]) else None)
+            ck.violation("restarting the debug log while another thread compiles breaks compile() for the rest of the process",
+                         {"req": race, "got": a, "kind": "log-race"})
 
     ck.proof_broken_violation(found_input=any(not ni for _, _, ni in ck.violations))
     ck.assumptions += [
